@@ -398,7 +398,10 @@ class _Analysis:
             if isinstance(t, ast.Name):
                 cur = self.name(t.id, t)
                 # x += y mutates x in place when x is a list / set / dict / array
-                if not (cur.top <= {I, F}):
+                if not (cur.top <= {I, F}) and t.id in getattr(self, "arrayish", set()):
+                    # the name is bound to a numpy array that shares memory with something reachable from outside: a definite in-place write
+                    self.mutation(cur, st, f"in-place augmented assignment to the array {t.id}")
+                elif not (cur.top <= {I, F}):
                     # in place for lists / sets / dicts / arrays, a rebinding for numbers and strings: the static type is
                     # not known here, so this is a *possible* write (undecided -> bounded snapshot oracle), not a definite one
                     self.s.unknown.append(Finding("unknown-write", self.where(st), f"augmented assignment to {t.id} (in place if it is a container/array): {ast.unparse(st)[:120]}", "?"))
@@ -481,11 +484,34 @@ class _Analysis:
             elif k in other:
                 self.env[k] = other[k]
 
+    def _arrayish(self, e) -> bool:
+        """the expression is known to denote a numpy array that may SHARE memory with one of its operands (np.asarray(x), x.reshape(..), x.T, another such name):
+        an augmented assignment to a name bound to it works in place"""
+        if isinstance(e, ast.Name):
+            return e.id in getattr(self, "arrayish", set())
+        if isinstance(e, ast.IfExp):
+            return self._arrayish(e.body) or self._arrayish(e.orelse)
+        if isinstance(e, ast.Attribute):
+            return e.attr in ("T", "real", "imag") and self._arrayish(e.value)
+        if isinstance(e, ast.Call) and isinstance(e.func, ast.Attribute):
+            root = e.func.value
+            while isinstance(root, ast.Attribute):
+                root = root.value
+            if isinstance(root, ast.Name) and root.id in ("np", "numpy") and root.id not in self.env:
+                return e.func.attr in ("asarray", "asanyarray", "ascontiguousarray", "reshape", "ravel", "atleast_1d", "atleast_2d", "squeeze", "transpose")
+            return e.func.attr in ("reshape", "ravel", "view", "squeeze", "transpose", "swapaxes") and (self._arrayish(e.func.value) or True)
+        return False
+
     def assign(self, t, v: Val, st):
         if isinstance(t, ast.Name):
             if t.id in self.globals_declared:
                 self.s.global_writes.append(Finding("global-write", self.where(st), ast.unparse(st)[:160], t.id))
             self.env[t.id] = v
+            val_expr = getattr(st, "value", None)
+            if val_expr is not None and isinstance(st, (ast.Assign, ast.AnnAssign)) and self._arrayish(val_expr):
+                if not hasattr(self, "arrayish"):
+                    self.arrayish = set()
+                self.arrayish.add(t.id)
         elif isinstance(t, (ast.Tuple, ast.List)):
             ev = v.elem()
             for e in t.elts:
